@@ -339,15 +339,6 @@ def checkSource (src : Src) (pulls r : Nat) (o : SrcAfter) : Bool :=
 
 /-! #### several pipelines over one source object -/
 
-inductive Mode where
-  | take (k : Nat)
-  | all
-  | first (key : Fn)
-
-structure Step where
-  pipe : Nat
-  mode : Mode
-
 inductive StepObs where
   | run (o : TakeObs)                      -- take / all
   | first (o : FirstObs) (pulls : Nat)
@@ -364,7 +355,9 @@ def StepObs.oof : StepObs → Bool
   | .run o => o.fin == .oof
   | .first o _ => (match o with | .oof => true | _ => false)
 
-def setAt {α : Type} (l : List α) (i : Nat) (x : α) : List α := l.set i x
+def StepOut.obs : StepOut → StepObs
+  | .run o => .run ⟨o.items, o.fin, o.pulls⟩
+  | .first o p => .first (firstObsOf o) p
 
 /-- what the checker remembers about the suspended iterator of a pipe: the source items it
     pulled so far, the number of items asked of it, the items it yielded -/
@@ -410,9 +403,13 @@ def checkSteps (xs : List V) (tail : Option Err) (pipes : List (List Kind)) :
 
 /-- builder purity, on observations of the implementation alone: the re-used prefix spec
     has the same repr and the same behaviour before and after specs were derived from it,
-    and a spec derived from the re-used prefix behaves like the same chain built afresh -/
-def checkReuse (reprSame : Bool) (before after reused fresh : TakeObs) : Bool :=
-  reprSame && before == after && reused == fresh
+    and a spec derived from the re-used prefix behaves like the same chain built afresh.
+    `evaled` (only for chains whose arguments are all literals): the spec obtained by
+    evaluating `repr` of the derived spec — the repr names every stage in chaining order
+    with all the arguments it was given — behaves like the derived spec. -/
+def checkReuse (reprSame : Bool) (before after reused fresh : TakeObs) (evaled : Option TakeObs) : Bool :=
+  reprSame && before == after && reused == fresh &&
+    (match evaled with | some t => t == reused | none => true)
 
 /-! ### well-formedness of the extracted facts -/
 
